@@ -84,6 +84,8 @@ def rowsLess : List OrdItem → List SortVal → List SortVal → Bool
 /-- SortValue.EquivalentTo -/
 def SortVal.equiv : SortVal → SortVal → Bool
   | .int i _ _, .int j _ _ => i == j
+  | .int _ f _, .flt g _ => FVal.feq f g
+  | .flt f _, .int _ g _ => FVal.feq f g
   | .int i _ _, .bool b => i == (if b then 1 else 0)
   | .flt f _, .flt g _ => (f.isNaN && g.isNaN) || FVal.feq f g
   | .dt a, .dt b => a == b
